@@ -31,16 +31,85 @@ func (p *C08) Prepare(env *Env, tier string, seed uint64) error {
 
 func (p *C08) Runs(tier string) int {
 	if tier == "thorough" {
-		return 60000
+		return 60000 + p.nSweep()
 	}
-	return 2500
+	return 2500 + p.nSweep()
 }
 
 var c08Tracks = []int{1, 1, 1, 2, 3, 4, 5, 8, 16, 32, 100, 255, 256}
 var c08Instruments = []string{"Piano", "", "Organ", "ピアノ", "a b c", "\"q\"", "Ünïcödé ♯♭", "x\ny"}
 var c08BigDegrees = []string{"22", "29", "36", "43", "57", "64", "100", "b64", "#50"}
 
+// sweeps: deterministic enumerations of single flag/field values around
+// encoding boundaries (7-bit data bytes, variable-length quantities, meta
+// event lengths, track-count limits).
+var c08BPMs = []string{"1", "2", "3", "4", "5", "14", "15", "16", "59", "60", "228", "229", "457", "458", "915", "916", "917", "1000", "3662", "3663", "14648", "14649", "58593", "58594", "234375", "234376", "1000000", "60000000", "60000001", "4294967295", "18446744073709551615"}
+var c08Meters = []string{"1/1", "2/2", "3/4", "4/4", "6/8", "7/16", "5/32", "9/64", "3/128", "1/256", "4/3", "4/5", "4/6", "4/7", "127/4", "128/4", "255/4", "256/4", "257/4", "4/255", "4/65536", "65536/65536", "4294967296/4", "3/1"}
+var c08TextLens = []int{0, 1, 126, 127, 128, 129, 255, 256, 16382, 16383, 16384, 16385, 70000}
+
+func (p *C08) sweep(seed uint64, run int) *Case {
+	r := model.NewRand(seed, fmt.Sprintf("C08/sweep/%d", run))
+	doc := goodInst + "- chord:\n    degree: \"4\"\n    name: \"m7\"\n    base: \"5\"\n  values:\n    - \"1/3\"\n    - \"2\"\n- values:\n    - \"3/2\"\n"
+	argv := []string{"write"}
+	label := ""
+	k := run
+	switch {
+	case k < 256:
+		argv = append(argv, "--program", fmt.Sprint(k))
+		label = "sweep:program"
+	case k < 256+len(c08BPMs)*2:
+		i := k - 256
+		v := c08BPMs[i/2]
+		if i%2 == 0 {
+			argv = append(argv, "--bpm", v)
+		} else {
+			doc = "- values:\n    - \"1\"\n" + goodInst + "- chord:\n    degree: \"1\"\n    name: \"\"\n  values:\n    - \"1\"\n  bpm: " + v + "\n"
+		}
+		label = "sweep:bpm"
+	case k < 256+len(c08BPMs)*2+len(c08Meters)*2:
+		i := k - 256 - len(c08BPMs)*2
+		v := c08Meters[i/2]
+		if i%2 == 0 {
+			argv = append(argv, "--meter", v)
+		} else {
+			doc = goodInst + "- values:\n    - \"1\"\n  meter: \"" + v + "\"\n" + goodInst
+		}
+		label = "sweep:meter"
+	case k < 256+len(c08BPMs)*2+len(c08Meters)*2+len(c08TextLens)*4:
+		i := k - 256 - len(c08BPMs)*2 - len(c08Meters)*2
+		n := c08TextLens[i/4]
+		unit := "a"
+		if i%2 == 1 {
+			unit = "é" // two bytes per character
+		}
+		txt := strings.Repeat(unit, n/len(unit))
+		if (i/2)%2 == 0 {
+			argv = append(argv, "--instrument", txt)
+		} else {
+			key := model.Pick(r, []string{"txt", "lic", "mrk"})
+			doc = goodInst + "- values:\n    - \"1\"\n  meta:\n    " + key + ": \"" + txt + "\"\n" + goodInst
+		}
+		label = "sweep:text-length"
+	default:
+		i := k - 256 - len(c08BPMs)*2 - len(c08Meters)*2 - len(c08TextLens)*4
+		n := 1 + i
+		argv = append(argv, "--track", fmt.Sprint(n))
+		label = "sweep:tracks"
+	}
+	c := &Case{Property: "C08", Kind: "smf", Seed: seed, Run: run, Labels: []string{label}, Params: map[string]string{}}
+	st := Step{Step: simrt.Step{Argv: argv, Seed: r.U64(), Stdin: &simrt.Stream{Data: []byte(doc)}}, Note: "stdout"}
+	c.Steps = append(c.Steps, st)
+	return c
+}
+
+func (p *C08) nSweep() int {
+	return 256 + len(c08BPMs)*2 + len(c08Meters)*2 + len(c08TextLens)*4 + 48
+}
+
 func (p *C08) Generate(seed uint64, run int) *Case {
+	if run < p.nSweep() {
+		return p.sweep(seed, run)
+	}
 	r := model.NewRand(seed, fmt.Sprintf("C08/%d", run))
 	o := &model.DocOpts{MaxInsts: 1 + r.Intn(8), ChordNames: p.w.ChordNames, Settings: r.Chance(2, 3), Meta: r.Chance(1, 2), Unicode: r.Chance(1, 3),
 		BigDegrees: r.Chance(1, 3), RestBias: r.Intn(5), TrailRest: r.Chance(1, 4), OddValues: r.Chance(1, 3), Dynamics: p.w.Dynamics, EdgeValues: r.Chance(1, 15)}
